@@ -183,7 +183,7 @@ ConfigureAny(c) ==
 Configure ==
     /\ pc = "config"
     /\ \E l \in Ls, f \in Finites, n \in Ns, cb \in Combines :
-          /\ (f => l > n) /\ (~f => l >= 2)
+          /\ (f => l > n) /\ (~f => l >= n)       \* get_sweep_schedule: finite L > n; infinite two-site L >= 2
           /\ ConfigureAny([L |-> l, finite |-> f, n |-> n, combine |-> cb, a0L |-> 0, a0R |-> 0])
 
 \* Sweep.sweep(optimize): the flags are fixed for the whole sweep
